@@ -198,6 +198,20 @@ CHECKS["C18"] = dict(
     technique="TLA+ stateless-codec spec + trace validation of concurrent real executions + Go race detector",
     design_ref="DESIGN.md §3.9, §4 C18")
 
+CHECKS["C15"] = dict(
+    level="model_checking",
+    text="Conn.tla models the two connection ends, the units on the wire (legacy frames, self-contained segments with one or more "
+         "envelopes, parts of a split envelope), the handshake with its framing switch and the packings a raw peer may choose; TLC "
+         "checks the C15 invariants (requests / responses intact and in order, handshake unframed, only segments afterwards on v5, both "
+         "ends agree on the framing, everything sent arrives) on every reachable state and prints every finished session. Each session is "
+         "replayed on real connections over net.Pipe under synctest for every version, compression and authentication setting on three "
+         "rigs: library-library (wire tapped and parsed by an independent reader), library client against a raw peer, raw peer against "
+         "the library server; every frame delivered is compared with the frame sent.",
+    note="Trusted: the raw peer (harness/conn_test.go, refwire re-anchored to TLC by C06) and the frame codec it uses for envelope bytes; "
+         "net.Pipe + synctest instead of TCP. Sessions are bounded (2 requests quick, 3 thorough).",
+    technique="TLA+ model checking of the connection protocol + replay of every finished session on real connections",
+    design_ref="DESIGN.md §3.6, §4 C15")
+
 NOT_YET = {}
 
 
